@@ -734,6 +734,14 @@ class ModelMixin:
                 pass
         return self.codec_fn("UTF8", "enc")(t)
 
+    def m_str_lower(self, recv, args, kw, st, node):
+        s_ = z3.simplify(recv.t)
+        if z3.is_string_value(s_):
+            return [(st, vstr(s_.as_string().lower()))]
+        if not hasattr(self, "_LOWER"):
+            self._LOWER = z3.Function("STR_LOWER", Str, Str)
+        return [(st, V("str", self._LOWER(recv.t)))]
+
     def m_str_replace(self, recv, args, kw, st, node):
         """str.replace(old, new) replaces every occurrence: an uninterpreted function of the three texts (folded on literals)"""
         if len(args) != 2:
